@@ -793,3 +793,105 @@ pub fn sql_session_corrupt(
         Ok((out, listing))
     })
 }
+
+/// Crash sessions (torn manifest tail at system level): run `before` on a fresh on-disk database
+/// (acknowledged), close it, reopen it (recovery rewrites the manifest), run `interrupted`, close.
+/// The files now on disk are those a crash during the manifest append of `interrupted` leaves
+/// behind - every data file is written before the append - except for the tail of
+/// `manifest.json`: it is truncated to `cut` bytes beyond its length before `interrupted`
+/// (`cut = usize::MAX` keeps it whole). Then: reopen, run `after`, close, reopen again, run
+/// `after_again`. Returns the results of all four groups and the two manifest lengths.
+#[allow(clippy::type_complexity)]
+pub fn sql_session_crash(
+    target_block_size: usize,
+    before: &[String],
+    interrupted: &str,
+    cut: usize,
+    after: &[String],
+    after_again: &[String],
+) -> Result<(Vec<Result<Vec<Vec<String>>, String>>, u64, u64), String> {
+    use crate::Database;
+    use crate::array::datachunk_to_sqllogictest_string;
+    use crate::storage::SecondaryStorageOptions;
+    guarded(|| {
+        let rt = tokio::runtime::Builder::new_multi_thread()
+            .worker_threads(2)
+            .enable_all()
+            .build()
+            .unwrap();
+        let dir = ScratchDir::new()?;
+        let root = dir.path().join("db");
+        let options = || {
+            let mut options = SecondaryStorageOptions::default_for_cli();
+            options.path = root.clone();
+            options.target_block_size = target_block_size;
+            options.target_rowset_size = 1;
+            options
+        };
+        let run = |db: &Database, sql: &str| {
+            rt.block_on(async {
+                match db.run(sql).await {
+                    Ok(chunks) => Ok(chunks
+                        .iter()
+                        .flat_map(datachunk_to_sqllogictest_string)
+                        .collect()),
+                    Err(e) => Err(e.to_string().lines().next().unwrap_or("").to_string()),
+                }
+            })
+        };
+        let open = || {
+            catch_unwind(AssertUnwindSafe(|| {
+                rt.block_on(Database::verif_new_on_disk_manual(options()))
+            }))
+            .map_err(|e| {
+                format!(
+                    "OPEN FAILED: {}",
+                    e.downcast_ref::<String>()
+                        .cloned()
+                        .or_else(|| e.downcast_ref::<&str>().map(|s| s.to_string()))
+                        .unwrap_or_default()
+                )
+            })
+        };
+        let manifest = root.join("manifest.json");
+        let len = |p: &std::path::Path| std::fs::metadata(p).map(|m| m.len()).unwrap_or(0);
+        let mut out = vec![];
+        let db = open()?;
+        for sql in before {
+            out.push(run(&db, sql));
+        }
+        drop(db);
+        let db = open()?;
+        let len_before = len(&manifest);
+        out.push(run(&db, interrupted));
+        drop(db);
+        let len_after = len(&manifest);
+        if cut != usize::MAX {
+            let keep = (len_before + cut as u64).min(len_after);
+            let f = std::fs::OpenOptions::new()
+                .write(true)
+                .open(&manifest)
+                .map_err(|e| e.to_string())?;
+            f.set_len(keep).map_err(|e| e.to_string())?;
+        }
+        for group in [after, after_again] {
+            match open() {
+                Ok(db) => {
+                    for sql in group {
+                        let r = catch_unwind(AssertUnwindSafe(|| run(&db, sql)));
+                        out.push(
+                            r.unwrap_or_else(|_| Err("PANIC while running the statement".into())),
+                        );
+                    }
+                    drop(db);
+                }
+                Err(msg) => {
+                    for _ in group {
+                        out.push(Err(msg.clone()));
+                    }
+                }
+            }
+        }
+        Ok((out, len_before, len_after))
+    })
+}
